@@ -28,6 +28,7 @@ VARIABLE tid
 
 NormLine(ln) == IF ln.k = "only" THEN [k |-> "only", c |-> Range(ln.c)]
                 ELSE IF ln.k = "inc" THEN [k |-> "inc", f |-> ln.f, c |-> Range(ln.c)]
+                ELSE IF ln.k = "vec" THEN [k |-> "vec", h |-> ln.h]
                 ELSE [k |-> ln.k]
 NormSrc(s) == [p \in 1..Len(s) |-> NormLine(s[p])]
 NormQ(q) == [kern |-> Range(q.kern), mem |-> Range(q.mem), restr |-> Range(q.restr), fun |-> Range(q.fun)]
